@@ -761,3 +761,43 @@ fn c15_try_init_dictionary_size_any() {
         }
     }
 }
+
+
+/// C15 (inspecting): the "Average chunk size" that `bita info` and the summary of `bita compress` print -- the
+/// expression is extracted textually from src/info_cmd.rs on every run -- must be computable for every archive that
+/// opens: 0, 1 or 2 descriptors (an empty source has none), any source sizes.
+fn info_average(n: usize) {
+    let ss: [u32; 2] = kani::any();
+    let mut descs = Vec::with_capacity(2);
+    if n > 0 {
+        descs.push(ChunkDescriptor { checksum: HashSum::from(&[1u8][..]), archive_size: 1, archive_offset: 0, source_size: ss[0] });
+    }
+    if n > 1 {
+        descs.push(ChunkDescriptor { checksum: HashSum::from(&[2u8][..]), archive_size: 1, archive_offset: 1, source_size: ss[1] });
+    }
+    let ar = mk_archive((), descs, Vec::new(), None);
+    let avg = crate::verif_cli_extract::cli_average_chunk_size(&ar);
+    if n == 1 {
+        assert!(avg == ss[0] as u64);
+    }
+    if n == 2 {
+        assert!(avg == (ss[0] as u64 + ss[1] as u64) / 2);
+    }
+    kani::cover!(true);
+    std::mem::forget(ar);
+}
+#[kani::proof]
+#[kani::unwind(4)]
+fn c15_info_average_empty_archive() {
+    info_average(0);
+}
+#[kani::proof]
+#[kani::unwind(4)]
+fn c15_info_average_one_chunk() {
+    info_average(1);
+}
+#[kani::proof]
+#[kani::unwind(4)]
+fn c15_info_average_two_chunks() {
+    info_average(2);
+}
